@@ -175,16 +175,17 @@ W_Misss(v, Hv, W) ==
 
 -----------------------------------------------------------------------------
 (* the property *)
+\* (the answers are functions of the view and of primary data, so equal views need no comparison)
 Same(v, u) ==
-    /\ \A i \in Commits : /\ W_Has(v, i) = W_Has(u, i)
-                          /\ W_Get(v, i) = W_Get(u, i)
-                          /\ W_Par(v, i) = W_Par(u, i)
-    /\ v.anc = u.anc => \A i, j \in Commits : i < j => W_Mb(v, i, j) = W_Mb(u, i, j)
-    /\ \A H \in Heads :
-          /\ W_Anc(v, H) = W_Anc(u, H)
-          /\ \A X \in Excl : /\ W_RCs(v, H, X) = W_RCs(u, H, X)
-                             /\ W_ROs(v, H, X) = W_ROs(u, H, X)
-                             /\ W_Misss(v, X, H) = W_Misss(u, X, H)
+    /\ \A i \in Commits : W_Has(v, i) = W_Has(u, i) /\ W_Get(v, i) = W_Get(u, i)
+    /\ v.par # u.par =>
+          /\ \A i \in Commits : W_Par(v, i) = W_Par(u, i)
+          /\ \A i, j \in Commits : i < j => W_Mb(v, i, j) = W_Mb(u, i, j)
+          /\ \A H \in Heads : W_Anc(v, H) = W_Anc(u, H)
+    /\ (v.par # u.par \/ v.bm # u.bm) =>
+          \A H \in Heads, X \in Excl : /\ W_RCs(v, H, X) = W_RCs(u, H, X)
+                                       /\ W_ROs(v, H, X) = W_ROs(u, H, X)
+                                       /\ W_Misss(v, X, H) = W_Misss(u, X, H)
 \* answers with any subset of the accelerators = answers with none
 OnKinds == {k \in Kinds : (k = "cg" /\ cg.on) \/ (k = "midx" /\ midx.on) \/ (k = "bmp" /\ bmp # {})}
 Transparent == LET u == View({}) IN \A A \in (SUBSET OnKinds) \ {{}} : Same(View(A), u)
